@@ -225,3 +225,53 @@ Theorem model_enforce_cases_pass :
     judge (CEnforce ar armed m steps (armer_sign_start ar) (armer_target ar) (model_obs m armed t steps)) = Agree.
 Proof. exact Proofs.C46.enforce_model_passes. Qed.
 Print Assumptions model_enforce_cases_pass.
+
+(* ---------------- the signing executor OBEYS the deadline ----------------
+   signingExecutor.sign for a message starting at block [s], called when the block clock shows
+   [c0] with a caller context that is cancelled at the deadline block [d] (the action's signing
+   context), every attempt failing as scripted (announcement ends with a minority ready, or the
+   loop's own block wait fails), for EVERY start block, deadline, call time and failure script:
+   sign() returns, with an error, no later than the clock value max(c0, min(s + one loop, d)) —
+   i.e. by the deadline when it was called before it — and every attempt it started (announced on a
+   live context) was started strictly before the deadline block. *)
+Theorem signing_ends_by_deadline :
+  forall s d c0 script,
+    0 <= c0 ->
+    let o := sign_model true s d c0 script in
+    0 <= l_end o <= Z.max c0 (Z.min (s + loop_blocks) d) /\
+    Forall (fun x : Z * bool => snd x = true -> fst x < d) (l_sends o) /\
+    l_err o = true.
+Proof. exact Proofs.C46.signing_ends_by_deadline_lemma. Qed.
+Print Assumptions signing_ends_by_deadline.
+
+(* the retry loop always returns (with or without a parent context): the model never runs out of fuel *)
+Theorem signing_loop_returns :
+  forall par s d c0 script, 0 <= c0 -> 0 <= l_end (sign_model par s d c0 script).
+Proof. exact Proofs.C46.sign_model_returns. Qed.
+Print Assumptions signing_loop_returns.
+
+(* meaning of the executable form used on the observations *)
+Theorem loop_spec_ok_meaning :
+  forall s d c0 o,
+    loop_spec_ok s d c0 o = true ->
+    0 <= l_end o <= Z.max c0 (Z.min (s + loop_blocks) d) /\
+    (forall b, In (b, true) (l_sends o) -> b < d) /\ l_err o = true.
+Proof. exact Proofs.C46.loop_spec_ok_sound. Qed.
+Print Assumptions loop_spec_ok_meaning.
+
+(* it holds of every model output, and the model's own output is judged Agree *)
+Theorem model_loop_cases_pass :
+  forall s d c0 script,
+    well_formed (CLoop s d c0 script (sign_model true s d c0 script)) = true ->
+    judge (CLoop s d c0 script (sign_model true s d c0 script)) = Agree.
+Proof. exact Proofs.C46.loop_model_passes. Qed.
+Print Assumptions model_loop_cases_pass.
+
+(* a loop context that does not descend from the caller's context is NOT bounded by the deadline:
+   a message starting 100 blocks before it keeps starting attempts after it and returns 105
+   blocks late (the executable property is false on that output) *)
+Theorem orphan_loop_context_overruns_deadline :
+  let o := sign_model false 10000 10100 9998 [] in
+  l_end o = 10205 /\ In (10124, true) (l_sends o) /\ loop_spec_ok 10000 10100 9998 o = false.
+Proof. exact Proofs.C46.orphan_loop_overruns. Qed.
+Print Assumptions orphan_loop_context_overruns_deadline.
